@@ -276,6 +276,53 @@ pub(crate) fn location_from_span(span: &ParserSpan) -> Location {
     })
 }
 
+/// Cut the span of a quoted scalar back to its closing quote.
+///
+/// The parser's end mark for a single- or double-quoted scalar lies after the blanks (and a
+/// trailing comment) that follow the closing quote on the same line. A span is meant to cover
+/// exactly the node's source text, so re-scan the token in `input` (the text the parser reads,
+/// byte offsets refer to it) and stop right after the closing quote. Returns `location`
+/// unchanged when byte offsets are not available or the text does not look like a quoted scalar.
+pub(crate) fn trim_quoted_scalar_span(input: &str, mut location: Location) -> Location {
+    let (start, byte_len) = location.span.byte_info;
+    let (start, byte_len) = (start as usize, byte_len as usize);
+    if byte_len == 0 {
+        return location;
+    }
+    let Some(text) = input.get(start..start.saturating_add(byte_len)) else {
+        return location;
+    };
+    let mut chars = text.char_indices();
+    let Some((_, quote)) = chars.next() else {
+        return location;
+    };
+    if quote != '\'' && quote != '"' {
+        return location;
+    }
+    let mut end = None;
+    while let Some((i, c)) = chars.next() {
+        if c == '\\' && quote == '"' {
+            // escape sequence: the next character cannot close the scalar
+            chars.next();
+        } else if c == quote {
+            if quote == '\'' && text[i + 1..].starts_with('\'') {
+                // '' is an escaped quote
+                chars.next();
+            } else {
+                end = Some(i + 1);
+                break;
+            }
+        }
+    }
+    if let Some(end) = end
+        && end < byte_len
+    {
+        location.span.len = text[..end].chars().count() as SpanIndex;
+        location.span.byte_info.1 = end as SpanIndex;
+    }
+    location
+}
+
 /// Pair of locations for values that may come indirectly from YAML anchors.
 ///
 /// - `reference_location`: where the value is *used* (alias/merge site).
